@@ -51,6 +51,9 @@ KINDS = {
     ("theta_isogeny_eval", "iii"): ("evalStep", None),
     ("theta_isogeny_eval", "_i_"): ("evalR", None),
     ("splitting_comput", "_i"): ("split", None),
+    # balanced recursion (theta_chain_comput_rec): R1/R2 (pointer + offset), the stacks P1/P2, out->steps
+    ("theta_isogeny_comput", "i_iinn"): ("stepR", None),
+    ("assign", "ii"): ("copyA", None),
 }
 
 
@@ -281,6 +284,10 @@ class Ctx:
         self.scalars = {}                          # tracked scalar objects: name -> slot of the virtual array "K"
         self.dyn_oracle = False                    # opaque conditions inside `for` loops: oracle index depends on the loop variable
         self.loopvars = []                         # stack of `for` loop variables (None for while loops)
+        self.ptrs = {}                             # tracked pointer parameters: name -> name of the integer offset parameter
+        self.lets = {}                             # int locals initialised once and never assigned again: name -> init expression
+        self.recursive = False
+        self.formals = []                          # formal parameter names of the function, in order
 
     # ---- int expressions: returns (binds, pure, ctype); binds = [(name, except_expr)]
     def fresh(self, binds):
@@ -294,6 +301,8 @@ class Ctx:
             n = e[1]
             if n in self.vars:
                 return "s.%s" % n, self.vars[n]
+            if n in self.lets:
+                return self.ie(self.lets[n], binds)
             if n in self.params:
                 return n, self.params[n]
             if n in self.consts:
@@ -428,6 +437,12 @@ class Ctx:
             e = e[1]
         if e[0] == "var" and e[1] in self.scalars:
             return "K", ("lit", self.scalars[e[1]])
+        if e[0] == "var" and e[1] in self.ptrs:                                   # p, *p
+            return e[1], ("var", self.ptrs[e[1]])
+        if e[0] == "bin" and e[1] == "+" and e[2][0] == "var" and e[2][1] in self.ptrs:   # p + e
+            return e[2][1], ("bin", "+", ("var", self.ptrs[e[2][1]]), e[3])
+        if e[0] == "idx" and e[1][0] == "var" and e[1][1] in self.ptrs:           # p[e]
+            return e[1][1], ("bin", "+", ("var", self.ptrs[e[1][1]]), e[2])
         if e[0] == "var" and e[1] in self.tracked:
             return e[1], None
         if e[0] == "idx" and e[1][0] == "var" and e[1][1] in self.tracked:
@@ -435,6 +450,12 @@ class Ctx:
         if e[0] == "idx" and e[1][0] == "field" and e[1][2] in self.field_arrays:
             return self.field_arrays[e[1][2]], e[2]
         return None
+
+    def is_guard_return(self, x):
+        """`if (<int condition>) { return; }` without else"""
+        a, b = x[2], x[3]
+        body = a[1] if a[0] == "block" else [a]
+        return len(body) == 1 and body[0][0] == "return" and body[0][1] is None and b == ("block", []) and self.is_int_expr(x[1])
 
     def tracked_reads(self, e):
         """slots of the tracked scalars mentioned in an (opaque) expression, in order of appearance"""
@@ -461,6 +482,22 @@ class Ctx:
             raise TranslateError("chainskel: indirect call")
         if name == "assert":
             return None
+        if self.recursive and name == self.fname:
+            if len(e[2]) != len(self.formals):
+                raise TranslateError("chainskel: %s: recursive call with %d arguments" % (self.fname, len(e[2])))
+            binds, vals = [], {}
+            for f, a in zip(self.formals, e[2]):
+                if f in self.ptrs:
+                    tb = self.tracked_base(a)
+                    if not tb or tb[0] != f:
+                        raise TranslateError("chainskel: %s: recursive call passes %r for the tracked pointer %s" % (self.fname, a, f))
+                    vals[self.ptrs[f]], _ = self.ie(tb[1], binds)
+                elif f in self.params:
+                    vals[f], _ = self.ie(a, binds)
+                elif not (a[0] == "var" and a[1] == f):
+                    raise TranslateError("chainskel: %s: recursive call changes the opaque argument %s" % (self.fname, f))
+            args = " ".join("(%s)" % vals[q] for q in self.params)
+            return "(fun s => %s)" % self.wrap(binds, "%s O row oracle fuel rf %s s" % (self.fname, args))
         if self.mentions_int_lvalue(e):
             raise TranslateError("chainskel: %s: call %s takes the address of an integer variable" % (self.fname, name))
         pat, args, binds, touches = "", [], [], False
@@ -497,7 +534,16 @@ class Ctx:
     def _stmts(self, st, out):
         k = st[0]
         if k == "block":
-            for x in st[1]:
+            items = st[1]
+            for n_, x in enumerate(items):
+                if self.recursive and x[0] == "if" and self.is_guard_return(x) and n_ + 1 < len(items):
+                    rest = []
+                    self.stmts(("block", items[n_ + 1:]), rest)
+                    binds = []; c = self.be(x[1], binds)
+                    out.append("(fun s => %s)" % self.wrap(binds, "(if %s then (fun s => s) s else %s s)" % (c, self.seq(rest))))
+                    return
+                if self.recursive and x[0] == "if" and self.is_guard_return(x):
+                    return                                                   # `if (c) return;` as the last statement
                 self.stmts(x, out)
         elif k == "decl":
             ty, items = st[1], st[2]
@@ -507,6 +553,8 @@ class Ctx:
                         binds = []; v, _ = self.ie(size, binds)
                         self.iarr.append(name); self.order.append((name, "arr"))
                         out.append('(fun s => %s)' % self.wrap(binds, '(if 0 < %s then { s with %s := IArr.new %s } else s.fail (.vla "%s" %s))' % (v, name, v, name, v)))
+                    elif self.recursive and init is not None and self.is_int_expr(init) and name in self.once:
+                        self.lets[name] = init          # per-frame constant: substituted (a state field would be clobbered by the inner call)
                     else:
                         if name not in self.vars:
                             self.vars[name] = INT_TYPES[ty]; self.order.append((name, "var"))
@@ -630,15 +678,43 @@ class Ctx:
         return "O %s %s oracle fuel %s" % ("T" if self.table2d else "row", " ".join(self.consts), " ".join(self.params))
 
 
+def once_assigned(ast):
+    """names of locals that are declared with an initialiser and never assigned / incremented afterwards"""
+    decl, assigned = set(), set()
+    def walk(x):
+        if isinstance(x, tuple):
+            if x and x[0] == "decl":
+                for (name, size, init, ptr) in x[2]:
+                    if init is not None and size is None and not ptr:
+                        decl.add(name)
+                    walk(init)
+                return
+            if x and x[0] == "assign" and x[2][0] == "var":
+                assigned.add(x[2][1])
+            if x and x[0] == "post" and x[2][0] == "var":
+                assigned.add(x[2][1])
+            for y in x[1:]:
+                walk(y)
+        elif isinstance(x, list):
+            for y in x:
+                walk(y)
+    walk(ast)
+    return decl - assigned
+
+
 def translate(src, fname, struct, int_params, table2d=None, row_ptr=None, tracked=(), consts=(), array_ids=None, field_arrays=None,
-              scalars=None, dyn_oracle=False):
-    _, body = function_body(src, fname)
+              scalars=None, dyn_oracle=False, recursive=False, ptrs=None):
+    formals, body = function_body(src, fname)
     ast = Parser(tokenize("{" + body + "}")).block()
     cx = Ctx(fname, struct, int_params, table2d, row_ptr, tracked, consts)
     cx.array_ids = array_ids
     cx.field_arrays = field_arrays or {}
     cx.scalars = dict(scalars or {})
     cx.dyn_oracle = dyn_oracle
+    cx.recursive = recursive
+    cx.ptrs = dict(ptrs or {})
+    cx.formals = [re.sub(r".*[\s*]", "", f.strip()) for f in formals.split(",")] if recursive else []
+    cx.once = once_assigned(ast) if recursive else set()
     top = []
     cx.stmts(ast, top)
     fields = ["  %s : %s" % (n, "Int" if k == "var" else "IArr") for n, k in cx.order]
@@ -651,8 +727,14 @@ def translate(src, fname, struct, int_params, table2d=None, row_ptr=None, tracke
            "def %s.step {σ : Type} (O : Obs σ) (f : %s σ → %s σ) (s : %s σ) : %s σ := if %s.live O s then f s else s" % ((struct,) * 6),
            "def %s.init {σ : Type} (o : σ) : %s σ := { %s, fault := none, obs := o }" % (struct, struct, init), ""]
     out += [x + "\n" for x in cx.loops]
-    out += ["/-- `%s`: integer skeleton -/" % fname,
-            "def %s %s (s : %s σ) : %s σ :=\n%s" % (fname, cx.sig(), struct, struct, cx.body_text(top)), ""]
+    if recursive:
+        out += ["/-- `%s`: integer skeleton; `rf` bounds the recursion depth (structural recursion), the pointer parameters" % fname,
+                "    %s are represented by their offsets %s -/" % (", ".join(cx.ptrs), ", ".join(cx.ptrs.values())),
+                "def %s %s (s : %s σ) : %s σ :=\n  match rf with\n  | 0 => s.fail .fuel\n  | rf + 1 =>\n%s"
+                % (fname, cx.sig().replace("(fuel : Nat)", "(fuel : Nat) (rf : Nat)"), struct, struct, cx.body_text(top, 4)), ""]
+    else:
+        out += ["/-- `%s`: integer skeleton -/" % fname,
+                "def %s %s (s : %s σ) : %s σ :=\n%s" % (fname, cx.sig(), struct, struct, cx.body_text(top)), ""]
     txt = "\n".join(out).replace("NORACLE", str(max(cx.noracle, 1)))
     return txt, cx
 
@@ -675,6 +757,13 @@ def generate(repo, outdir):
         txt, _ = translate(src2, fn, st, [("n", "int"), ("eight_above", "int")], row_ptr="strategy",
                            array_ids=ids, field_arrays={"steps": "steps"})
         parts.append(txt)
+    # the balanced recursion: R1/R2 are pointers that may be advanced (offset parameters), P1/P2 the stacks
+    txt, _ = translate(src2, "theta_chain_comput_rec", "RecSt",
+                       [("len", "int"), ("index", "int"), ("advance", "int"), ("stacklen", "int"), ("total_length", "int"),
+                        ("R1_off", "int"), ("R2_off", "int"), ("P1_off", "int"), ("P2_off", "int")],
+                       array_ids={"R1": 6, "R2": 7, "P1": 8, "P2": 9, "steps": 5}, field_arrays={"steps": "steps"},
+                       recursive=True, ptrs={"R1": "R1_off", "R2": "R2_off", "P1": "P1_off", "P2": "P2_off"})
+    parts.append(txt)
     parts.append("end SqiGen.ChainSkel\n")
     ch = write_if_changed(os.path.join(outdir, "ChainSkel.lean"), "\n".join(parts))
     return ["SqiGen/ChainSkel.lean regenerated"] if ch else []
